@@ -3,10 +3,12 @@
 //@include intoiter.rs
 //@include ghost_iter_bw.rs
 //@include ghost_ac.rs
+//@include ghost_lm_bw.rs
 //@include ghost_wrap_bw.rs
 
 //@impl src/bytewise/builder.rs impl DoubleArrayAhoCorasickBuilder
 //@fn build_sparse_nfa
+//@forbid num_free_blocks
 //@rules R22 R11 R3all
 //@ret r
 //@head{
